@@ -10,8 +10,14 @@ import (
 	"bytes"
 	"crypto/aes"
 	"crypto/cipher"
+	"crypto/des"
+	"crypto/hmac"
+	"crypto/sha1"
+	"crypto/sha256"
+	"crypto/sha512"
 	"encoding/binary"
 	"fmt"
+	"hash"
 	"strings"
 
 	"golang.org/x/crypto/chacha20"
@@ -354,10 +360,64 @@ func craftedAEAD(g *hx.Gen, r *hx.Rand) {
 	}
 }
 
+func macFor(name string, key []byte) (hash.Hash, int) {
+	switch name {
+	case "hmac-sha2-512-etm@openssh.com", "hmac-sha2-512":
+		return hmac.New(sha512.New, key), 64
+	case "hmac-sha2-256-etm@openssh.com", "hmac-sha2-256":
+		return hmac.New(sha256.New, key), 32
+	case "hmac-sha1":
+		return hmac.New(sha1.New, key), 20
+	case "hmac-sha1-96":
+		return hmac.New(sha1.New, key), 12
+	}
+	return nil, 0
+}
+
+// craftedCBC: correctly MACed and CBC-encrypted packets whose header fields a conforming writer never
+// produces (padding_length 0..3 or ≥ length-1, length below the minimum): only the reader's structural
+// checks reject them.
+func craftedCBC(g *hx.Gen, r *hx.Rand) {
+	for _, c := range cbcCiphers {
+		for _, m := range []string{"hmac-sha1", "hmac-sha2-256-etm@openssh.com", "hmac-sha1-96"} {
+			for _, total := range []int{8, 16, 24, 32, 48} {
+				for _, pad := range []int{0, 1, 2, 3, 4, 5, total - 7, total - 6, total - 5, total - 4, 255} {
+					if pad < 0 || pad > 255 {
+						continue
+					}
+					k := newKeys(r, c, m)
+					var blk cipher.Block
+					if c == "aes128-cbc" {
+						blk, _ = aes.NewCipher(k.key)
+					} else {
+						blk, _ = des.NewTripleDESCipher(k.key)
+					}
+					if total%blk.BlockSize() != 0 {
+						continue
+					}
+					plain := r.Bytes(total)
+					binary.BigEndian.PutUint32(plain, uint32(total-4))
+					plain[4] = byte(pad)
+					h, n := macFor(m, k.mkey)
+					var sb [4]byte
+					binary.BigEndian.PutUint32(sb[:], k.seq)
+					h.Write(sb[:])
+					h.Write(plain)
+					tag := h.Sum(nil)[:n]
+					ct := make([]byte, total)
+					cipher.NewCBCEncrypter(blk, k.iv).CryptBlocks(ct, plain)
+					emit(g, k, 2, append(append(ct, tag...), r.Bytes(r.Intn(3))...), "crafted-cbc-header")
+				}
+			}
+		}
+	}
+}
+
 func gen(g *hx.Gen) {
 	r := g.R
 	pairs := allPairs()
 	craftedAEAD(g, r)
+	craftedCBC(g, r)
 
 	// every mode: one stream with every bit flip + every truncation (rotating subset in the quick tier),
 	// and lighter tampering of further streams
